@@ -255,9 +255,11 @@ impl Mul<usize> for ZatBalance {
     type Output = Option<ZatBalance>;
 
     fn mul(self, rhs: usize) -> Option<ZatBalance> {
-        let rhs: i64 = rhs.try_into().ok()?;
-        self.0
-            .checked_mul(rhs)
+        // Multiply in a wider type so that a multiplier above `i64::MAX` only fails when
+        // the exact product is out of range (zero times anything is zero).
+        let product = i128::from(self.0).checked_mul(i128::try_from(rhs).ok()?)?;
+        i64::try_from(product)
+            .ok()
             .and_then(|i| ZatBalance::try_from(i).ok())
     }
 }
